@@ -17,7 +17,8 @@ ExportInv == (DoExport /\ Done) =>
 (* Trace validation: the endings observed on the real code (one JSON object per line: F = classes of  *)
 (* the attempts actually made, status, value, raised) are judged by the reference predicates.        *)
 Obs == ndJsonDeserialize(IOEnv.OBS_FILE)
-ValidateObserved ==
+\* (an invariant that does its work in the initial state only)
+ValidateObserved == (N = 0) =>
   LET bad == SelectSeq([i \in 1..Len(Obs) |-> [i |-> i, failed |-> FailedClauses(Obs[i].F, Obs[i].status, Obs[i].value, Obs[i].raised)]],
                        LAMBDA r : r.failed # {})
   IN PrintT(ToJson([validated |-> Len(Obs), bad |-> bad]))
